@@ -29,6 +29,8 @@ type ResetProcessor struct {
 	target       interface{}
 	paths        []tree.Path
 	visitedNodes map[*yaml.Node][]string
+	// expanding holds the anchored nodes whose alias is currently being expanded
+	expanding map[*yaml.Node]bool
 }
 
 // UnmarshalYAML implement yaml.Unmarshaler
@@ -60,7 +62,18 @@ func (p *ResetProcessor) resolveReset(node *yaml.Node, path tree.Path) (*yaml.No
 			return nil, err
 		}
 
-		return p.resolveReset(node.Alias, path)
+		// an alias met while its own target is being expanded can never terminate,
+		// whatever the paths look like (e.g. `&a {<<: *a}`)
+		if p.expanding[node.Alias] {
+			return nil, fmt.Errorf("cycle detected: alias %q at path %s references itself", node.Value, path.String())
+		}
+		if p.expanding == nil {
+			p.expanding = map[*yaml.Node]bool{}
+		}
+		p.expanding[node.Alias] = true
+		resolved, err := p.resolveReset(node.Alias, path)
+		delete(p.expanding, node.Alias)
+		return resolved, err
 	}
 
 	if node.Tag == "!reset" {
